@@ -300,6 +300,16 @@ type UnknownDescriptionBlock struct {
 	Data []byte
 }
 
+// Size returns the packed size.
+func (u *UnknownDescriptionBlock) Size() uint {
+	return 2 + uint(len(u.Data))
+}
+
+// Pack assembles the unknown description block in the given buffer.
+func (u *UnknownDescriptionBlock) Pack(buffer []byte) {
+	util.PackSome(buffer, uint8(u.Size()), uint8(u.Type), u.Data)
+}
+
 // Unpack Unknown Description Blocks into a buffer.
 func (u *UnknownDescriptionBlock) Unpack(data []byte) (n uint, err error) {
 	u.Data = make([]byte, len(data))
